@@ -943,7 +943,8 @@ def probe_beat(ctx, ref, est, P):
     probe_events(ctx, 'beat', ref, est, 0.07)
     # C02: each side against itself
     for side in (ref, est):
-        ctx.take(O.check_self(B, side))
+        if side and side[-1] - side[0] <= 120.0:          # (p_score builds 10 ms impulse trains over the whole span)
+            ctx.take(O.check_self(B, side))
         ctx.take(O.check_infogain(B, side, list(side), 41))
     # C08: exact shifts, with the parameters of the case and with the defaults; p_score also over a ladder of thresholds
     vals = ref + est
